@@ -200,27 +200,39 @@ Qed.
 (* ------------------------------------------------------------------ *)
 (* shared ownership: the collection at the end of an operation          *)
 
+(* a key below 2000 denotes a trackable, the key [sig_key g] the signal object g *)
+Lemma key_live_track k st : k < 2000 -> (key_live k st = true <-> live_track k st <> None).
+Proof.
+  intro Hk. unfold key_live. destruct (N.leb_spec 2000 k); [lia|].
+  destruct (live_track k st); split; intro X; try reflexivity; try discriminate. contradiction.
+Qed.
+
+Lemma key_live_sig g st : key_live (sig_key g) st = true <-> live_sig g st <> None.
+Proof.
+  unfold key_live, sig_key. destruct (N.leb_spec 2000 (2000 + g)); [|lia].
+  replace (2000 + g - 2000) with g by lia.
+  destruct (live_sig g st); split; intro X; try reflexivity; try discriminate. contradiction.
+Qed.
+
 Lemma find_orphan_some prog l st t : find_orphan prog l st = Some t ->
-  In (t, true) l /\ live_track t st <> None /\ owner_count prog t st = 0.
+  In (t, true) l /\ key_live t st = true /\ owner_count prog t st = 0.
 Proof.
   induction l as [|[t' rel] l IH]; cbn [find_orphan]; [discriminate|].
-  destruct (rel && match live_track t' st with Some _ => true | None => false end && N.eqb (owner_count prog t' st) 0) eqn:E.
+  destruct (rel && key_live t' st && N.eqb (owner_count prog t' st) 0) eqn:E.
   - intro X. inversion X; subst t'. apply andb_true_iff in E. destruct E as [E E3].
     apply andb_true_iff in E. destruct E as [E1 E2]. subst rel.
-    split; [left; reflexivity|]. split; [|apply N.eqb_eq; exact E3].
-    destruct (live_track t st); [discriminate|discriminate].
+    split; [left; reflexivity|]. split; [exact E2|apply N.eqb_eq; exact E3].
   - intro X. destruct (IH X) as (A & B). split; [right; exact A|exact B].
 Qed.
 
 Lemma find_orphan_none prog l st : find_orphan prog l st = None ->
-  forall t, In (t, true) l -> live_track t st <> None -> owner_count prog t st <> 0.
+  forall t, In (t, true) l -> key_live t st = true -> owner_count prog t st <> 0.
 Proof.
   induction l as [|[t' rel] l IH]; cbn [find_orphan]; [intros _ t []|].
-  destruct (rel && match live_track t' st with Some _ => true | None => false end && N.eqb (owner_count prog t' st) 0) eqn:E;
+  destruct (rel && key_live t' st && N.eqb (owner_count prog t' st) 0) eqn:E;
     [discriminate|].
   intros X t [Y|Y] Hl.
-  - inversion Y; subst t' rel. cbn [andb] in E. destruct (live_track t st); [|contradiction].
-    cbn [andb] in E. apply N.eqb_neq. exact E.
+  - inversion Y; subst t' rel. rewrite Hl in E. cbn [andb] in E. apply N.eqb_neq. exact E.
   - exact (IH X t Y Hl).
 Qed.
 
@@ -230,40 +242,98 @@ Proof.
   induction fuel as [|fuel IH]; intros st st' E; cbn [gc] in E.
   - destruct (find_orphan prog (shared st) st) eqn:Hfo; [discriminate|]. inversion E; subst st'. exact Hfo.
   - destruct (find_orphan prog (shared st) st) eqn:Hfo; [|inversion E; subst st'; exact Hfo].
-    destruct (track_notify n st) as [st1|e]; cbn [rbind] in E; [|discriminate].
-    eapply IH; eauto.
+    destruct (N.leb 2000 n).
+    + destruct (live_sig (n - 2000) st) as [go|]; [|discriminate].
+      destruct (sig_destroy (n - 2000) go st) as [st1|e]; cbn [rbind] in E; [|discriminate].
+      eapply IH; eauto.
+    + destruct (track_notify n st) as [st1|e]; cbn [rbind] in E; [|discriminate].
+      eapply IH; eauto.
 Qed.
 
 Lemma is_released_shared t st st' : shared st' = shared st -> is_released t st' = is_released t st.
 Proof. intro E. unfold is_released. rewrite E. reflexivity. Qed.
 
+(* what the collection destroys, among the objects the table of shared objects can name (user
+   trackables, keys below 1000, and signal objects, keys from 2000 on), was released and listed *)
 Lemma gc_dead prog : forall fuel st st', WF st -> NoDup (map fst (shared st)) -> gc prog fuel st = Ok st' ->
   shared st' = shared st /\
-  forall t, live_track t st <> None -> live_track t st' = None ->
-    is_released t st = true /\ In t (map fst (shared st)).
+  forall k, k < 1000 \/ 2000 <= k -> key_live k st = true -> key_live k st' = false ->
+    is_released k st = true /\ In k (map fst (shared st)).
 Proof.
   induction fuel as [|fuel IH]; intros st st' H Hnd E; cbn [gc] in E.
   - destruct (find_orphan prog (shared st) st) eqn:Hfo; [discriminate|]. inversion E; subst st'.
-    split; [reflexivity|]. intros t A B. contradiction.
+    split; [reflexivity|]. intros k _ A B. congruence.
   - destruct (find_orphan prog (shared st) st) as [t0|] eqn:Hfo.
-    2:{ inversion E; subst st'. split; [reflexivity|]. intros t A B. contradiction. }
+    2:{ inversion E; subst st'. split; [reflexivity|]. intros k _ A B. congruence. }
     destruct (find_orphan_some _ _ _ _ Hfo) as (Hin & Hlive & Hoc).
-    assert (Ht : t0 < 1000).
+    assert (Ht : shkey t0).
     { pose proof (wf_shared _ H) as F. unfold shared_ok in F. rewrite Forall_forall in F. exact (F (t0, true) Hin). }
-    destruct (del_user_track_G t0 st H Ht) as (st1 & E1 & C & G). rewrite E1 in E. cbn [rbind] in E.
-    set (st2 := with_tracks (aset t0 None (tracks st1)) st1) in *.
-    assert (Hsh : shared st2 = shared st) by exact (ca_shared _ _ C).
+    (* one step of the collection kills the key t0 and no other nameable key *)
+    assert (Hstep : exists st2, gc prog fuel st2 = Ok st' /\ WF st2 /\ shared st2 = shared st /\
+              forall k, k < 1000 \/ 2000 <= k -> key_live k st = true -> key_live k st2 = false -> k = t0).
+    { destruct (N.leb_spec 2000 t0) as [Hge|Hlt].
+      - unfold key_live in Hlive. destruct (N.leb_spec 2000 t0) as [_|]; [|lia].
+        destruct (live_sig (t0 - 2000) st) as [go|] eqn:Hl; [|discriminate].
+        destruct (sig_destroy_full (t0 - 2000) go st H Hl) as (st1 & E1 & G & Hsh & Hsg & _ & Htr).
+        rewrite E1 in E. cbn [rbind] in E.
+        exists st1. split; [exact E|]. split; [exact (proj1 G)|]. split; [exact Hsh|].
+        intros k Hk A B. unfold key_live in A, B. destruct (N.leb_spec 2000 k) as [Hk2|Hk2].
+        + rewrite Hsg in B. destruct (N.eqb_spec (k - 2000) (t0 - 2000)) as [X|_]; [lia|].
+          rewrite B in A. discriminate.
+        + exfalso. assert (Hk1 : k < 1000) by (destruct Hk; [assumption|lia]).
+          assert (X : live_track k st1 <> None).
+          { apply Htr; [unfold trackable_of_sig; lia|]. destruct (live_track k st); [discriminate|discriminate A]. }
+          destruct (live_track k st1); [discriminate B|contradiction].
+      - assert (Ht' : t0 < 1000) by (destruct Ht as [|[]]; [assumption|lia]).
+        destruct (del_user_track_G t0 st H Ht') as (st1 & E1 & C & G). rewrite E1 in E. cbn [rbind] in E.
+        set (st2 := with_tracks (aset t0 None (tracks st1)) st1) in *.
+        exists st2. split; [exact E|]. split; [exact (proj1 G)|]. split; [exact (ca_shared _ _ C)|].
+        intros k Hk A B. unfold key_live in A, B. destruct (N.leb_spec 2000 k) as [Hk2|Hk2].
+        + exfalso. unfold live_sig, st2 in B. cbn [sigs with_tracks] in B. rewrite (ca_sigs _ _ C) in B.
+          unfold live_sig in A. rewrite B in A. discriminate.
+        + unfold st2 in B. rewrite live_track_aset in B. destruct (N.eqb_spec k t0) as [X|Hne]; [exact X|exfalso].
+          assert (X : live_track k st1 <> None).
+          { apply (tlive_live st st1 k (ca_tracks _ _ C)). destruct (live_track k st); [discriminate|discriminate A]. }
+          destruct (live_track k st1); [discriminate B|contradiction]. }
+    destruct Hstep as (st2 & E2 & W2 & Hsh & Honly).
     assert (Hnd2 : NoDup (map fst (shared st2))) by (rewrite Hsh; exact Hnd).
-    destruct (IH st2 st' (proj1 G) Hnd2 E) as (Sh' & Hd).
-    split; [congruence|]. intros t Hl Hl'.
-    destruct (live_track t st2) eqn:Hl2.
-    + destruct (Hd t) as (A & B); [congruence|exact Hl'|].
-      rewrite (is_released_shared t st st2 Hsh) in A. rewrite Hsh in B. auto.
-    + unfold st2 in Hl2. rewrite live_track_aset in Hl2. destruct (N.eqb_spec t t0) as [->|Hne].
-      * split.
-        -- unfold is_released. rewrite (in_aget_nodup t0 true (shared st) Hnd Hin). reflexivity.
-        -- apply in_map_iff. exists (t0, true). split; [reflexivity|exact Hin].
-      * exfalso. apply (proj2 (tlive_live st st1 t (ca_tracks _ _ C))); assumption.
+    destruct (IH st2 st' W2 Hnd2 E2) as (Sh' & Hd).
+    split; [congruence|]. intros k Hk Hl Hl'.
+    destruct (key_live k st2) eqn:Hl2.
+    + destruct (Hd k Hk Hl2 Hl') as (A & B).
+      rewrite (is_released_shared k st st2 Hsh) in A. rewrite Hsh in B. auto.
+    + rewrite (Honly k Hk Hl Hl2). split.
+      * unfold is_released. rewrite (in_aget_nodup t0 true (shared st) Hnd Hin). reflexivity.
+      * apply in_map_iff. exists (t0, true). split; [reflexivity|exact Hin].
+Qed.
+
+(* the lifetime of a shared object, in terms of the key that names it *)
+Lemma shared_key_lifetime :
+  forall prog st st' k, WF st -> NoDup (map fst (shared st)) -> gc_shared prog st = Ok st' ->
+    k < 1000 \/ 2000 <= k ->
+    (key_live k st = true -> key_live k st' = false ->
+       is_released k st = true /\ In k (map fst (shared st))) /\
+    (key_live k st' = true -> is_released k st' = true -> 0 < owner_count prog k st').
+Proof.
+  intros prog st st' k H Hnd E Hk. unfold gc_shared in E. split.
+  - exact (proj2 (gc_dead prog _ st st' H Hnd E) k Hk).
+  - intros Hl Hr. pose proof (gc_result prog _ st st' E) as Hfo.
+    unfold is_released in Hr. destruct (aget k (shared st')) as [[|]|] eqn:Ha; try discriminate.
+    pose proof (find_orphan_none prog _ _ Hfo k (aget_in _ _ _ Ha) Hl). lia.
+Qed.
+
+Lemma key_live_false_track k st : k < 2000 -> (key_live k st = false <-> live_track k st = None).
+Proof.
+  intro Hk. pose proof (key_live_track k st Hk) as X. destruct (key_live k st), (live_track k st);
+    split; intro Y; try reflexivity; try discriminate; exfalso; [apply (proj1 X); [reflexivity|exact Y]|].
+  assert (Z : false = true) by (apply (proj2 X); discriminate). discriminate.
+Qed.
+
+Lemma key_live_false_sig g st : key_live (sig_key g) st = false <-> live_sig g st = None.
+Proof.
+  pose proof (key_live_sig g st) as X. destruct (key_live (sig_key g) st), (live_sig g st);
+    split; intro Y; try reflexivity; try discriminate; exfalso; [apply (proj1 X); [reflexivity|exact Y]|].
+  assert (Z : false = true) by (apply (proj2 X); discriminate). discriminate.
 Qed.
 
 (* S_shared_trackable_lifetime does not hold for every WF state: WF does not say that the keys of
@@ -271,26 +341,50 @@ Qed.
    by [aset]).  With a shadowed entry (t, true) behind (t, false), find_orphan collects t although
    is_released t (which reads the first entry) is false.  With unique keys the statement holds. *)
 Lemma shared_trackable_lifetime_partial :
-  forall prog st st' t, WF st -> NoDup (map fst (shared st)) -> gc_shared prog st = Ok st' ->
+  forall prog st st' t, WF st -> NoDup (map fst (shared st)) -> gc_shared prog st = Ok st' -> t < 1000 ->
     (live_track t st <> None -> live_track t st' = None ->
        is_released t st = true /\ In t (map fst (shared st))) /\
     (live_track t st' <> None -> is_released t st' = true -> In t (map fst (shared st')) -> 0 < owner_count prog t st').
 Proof.
-  intros prog st st' t H Hnd E. unfold gc_shared in E. split.
-  - exact (proj2 (gc_dead prog _ st st' H Hnd E) t).
-  - intros Hl Hr _. pose proof (gc_result prog _ st st' E) as Hfo.
-    unfold is_released in Hr. destruct (aget t (shared st')) as [[|]|] eqn:Ha; try discriminate.
-    pose proof (find_orphan_none prog _ _ Hfo t (aget_in _ _ _ Ha) Hl). lia.
+  intros prog st st' t H Hnd E Ht.
+  assert (Ht2 : t < 2000) by lia.
+  destruct (shared_key_lifetime prog st st' t H Hnd E (or_introl Ht)) as (A & B). split.
+  - intros Hl Hl'. apply A; [apply key_live_track; assumption|apply key_live_false_track; assumption].
+  - intros Hl Hr _. apply B; [apply key_live_track; assumption|exact Hr].
 Qed.
 
-(* the second conjunct needs no side condition *)
+(* the same for a signal object co-owned by functor copies *)
+Lemma shared_signal_lifetime :
+  forall prog st st' g, WF st -> NoDup (map fst (shared st)) -> gc_shared prog st = Ok st' ->
+    (live_sig g st <> None -> live_sig g st' = None ->
+       is_released (sig_key g) st = true /\ In (sig_key g) (map fst (shared st))) /\
+    (live_sig g st' <> None -> is_released (sig_key g) st' = true -> 0 < owner_count prog (sig_key g) st').
+Proof.
+  intros prog st st' g H Hnd E.
+  assert (Hk : sig_key g < 1000 \/ 2000 <= sig_key g) by (right; unfold sig_key; lia).
+  destruct (shared_key_lifetime prog st st' (sig_key g) H Hnd E Hk) as (A & B). split.
+  - intros Hl Hl'. apply A; [apply key_live_sig; assumption|apply key_live_false_sig; assumption].
+  - intros Hl Hr. apply B; [apply key_live_sig; assumption|exact Hr].
+Qed.
+
+(* the second conjunct needs no side condition on the state (a key from 2000 on names a signal
+   object, not the trackable with that number) *)
 Lemma shared_trackable_kept_while_owned :
-  forall prog st st' t, gc_shared prog st = Ok st' ->
+  forall prog st st' t, gc_shared prog st = Ok st' -> t < 2000 ->
     live_track t st' <> None -> is_released t st' = true -> 0 < owner_count prog t st'.
 Proof.
-  intros prog st st' t E Hl Hr. pose proof (gc_result prog _ st st' E) as Hfo.
+  intros prog st st' t E Ht Hl Hr. pose proof (gc_result prog _ st st' E) as Hfo.
   unfold is_released in Hr. destruct (aget t (shared st')) as [[|]|] eqn:Ha; try discriminate.
-  pose proof (find_orphan_none prog _ _ Hfo t (aget_in _ _ _ Ha) Hl). lia.
+  pose proof (find_orphan_none prog _ _ Hfo t (aget_in _ _ _ Ha) (proj2 (key_live_track t st' Ht) Hl)). lia.
+Qed.
+
+Lemma shared_signal_kept_while_owned :
+  forall prog st st' g, gc_shared prog st = Ok st' ->
+    live_sig g st' <> None -> is_released (sig_key g) st' = true -> 0 < owner_count prog (sig_key g) st'.
+Proof.
+  intros prog st st' g E Hl Hr. pose proof (gc_result prog _ st st' E) as Hfo.
+  unfold is_released in Hr. destruct (aget (sig_key g) (shared st')) as [[|]|] eqn:Ha; try discriminate.
+  pose proof (find_orphan_none prog _ _ Hfo _ (aget_in _ _ _ Ha) (proj2 (key_live_sig g st') Hl)). lia.
 Qed.
 
 (* machine-checked counterexample to the unrestricted statement *)
@@ -322,7 +416,7 @@ Proof.
   - intros w i n X. destruct w; discriminate.
   - intros t tr X. unfold live_track in X. cbn in X. destruct (N.eqb t 5); [|discriminate]. inversion X. reflexivity.
   - intros i im X. discriminate.
-  - constructor; [cbn; lia|]. constructor; [cbn; lia|constructor].
+  - constructor; [left; cbn; lia|]. constructor; [left; cbn; lia|constructor].
   - intros i im X. discriminate.
 Qed.
 
@@ -332,7 +426,7 @@ Proof.
   assert (E : exists st', gc_shared pdummy cxs = Ok st' /\ live_track 5 st' = None).
   { eexists. split; [vm_compute; reflexivity|]. reflexivity. }
   destruct E as (st' & E & Hd).
-  destruct (S pdummy cxs st' 5 (proj1 WF_top_cxs) E) as (A & _).
+  destruct (S pdummy cxs st' 5 (proj1 WF_top_cxs) E) as (A & _); [lia|].
   destruct A as (A & _); [discriminate|exact Hd|]. discriminate.
 Qed.
 
@@ -346,4 +440,6 @@ Print Assumptions emission_through_either_handle.
 Print Assumptions trackable_notify_invalidates.
 Print Assumptions shared_trackable_lifetime_partial.
 Print Assumptions shared_trackable_kept_while_owned.
+Print Assumptions shared_signal_lifetime.
+Print Assumptions shared_signal_kept_while_owned.
 Print Assumptions shared_trackable_lifetime_false.
